@@ -36,7 +36,7 @@ static std::string case_text(int pers, const std::string &rq, const std::string 
 // early = (q, s): an early answer - the request stream is offered up to byte q (inside a request body), then the response stream up to
 // byte s (the end of the answer to that request), then the rest of both; (0, 0) = all requests first
 static std::pair<std::string, std::string> check(int pers, const std::string &rq, const std::string &rs, const std::vector<Exp> &exp, const std::vector<size_t> &qc, const std::vector<size_t> &sc) {
-    vdrv::Config c; c.personality = pers; vdrv::Plan p; vdrv::Options o; o.dump = true;
+    vdrv::Config c; c.personality = pers; vdrv::Plan p; vdrv::Options o; o.dump = true; o.wire_bound = true;
     vdrv::Session ss(c, p, o);
     vdrv::HandOver ho;
     size_t eq = g_early.first, es = g_early.second; if (eq > rq.size() || es > rs.size()) eq = es = 0;
@@ -48,6 +48,7 @@ static std::pair<std::string, std::string> check(int pers, const std::string &rq
     std::string site; for (int t : {1, 5, 6, 7}) if (r.trace_hits.count(t)) site += "+T" + std::to_string(t);
     auto inner = [&]() -> std::pair<std::string, std::string> {
         for (auto &v : r.violations) if (v.rfind("C06:", 0) == 0) return {"monitor:" + v.substr(4), "accounting monitor: " + v};
+        if (exp.empty()) return {"", ""}; // accounting-only case (malformed framing): nothing but the monitor's "for every input" rules applies
         if (r.txs.size() != exp.size()) return {"transaction_count", std::to_string(r.txs.size()) + " transactions for " + std::to_string(exp.size()) + " pairs (bytes after a body did not start the next message, or a message was split)"};
         for (size_t i = 0; i < exp.size(); i++) {
             const vdrv::TxDump &t = r.txs[i]; const Exp &e = exp[i]; std::string n = "transaction " + std::to_string(i + 1) + ": ";
@@ -106,6 +107,25 @@ static void campaign() {
     });
 }
 
+// accounting for inputs that are NOT well formed: a response that announces chunked framing but whose body (or a later chunk-size line) is no chunk-size line.
+// The library falls back to "identity until close"; only the rules stated for every input are checked (entity length == bytes delivered, message length <= bytes
+// taken from the wire, end-of-body marker), by the driver's monitor, for every cut.
+static void campaign_malformed() {
+    int cases = A.thorough() ? 6000 : 600;
+    static const std::vector<std::string> BODY = {"hello\nworld", "hello\r\nworld\r\n", "zz\r\nabc", "5\r\nhello\r\nXYZ\r\nrest of it", "-1\r\nabc\r\n", "fffffffffffffffffff\r\nabc", "5;ext=1\r\nhello\r\n0x\r\n\r\n", "\r\n\r\nnot a size\r\nmore", "3\r\nabc\r\n\r\n\r\nG\r\n", "<html>\n<body>x</body>\n</html>\n"};
+    rcx::run("accounting_malformed_chunked", vc::mix(A.seed * 211 + A.shard + 4000), cases, 60, [&]() -> std::optional<rcx::Fail> {
+        int pers = rcx::range(0, 9); std::string body = rcx::pick(BODY); if (rcx::chance(1, 3)) { int n = rcx::range(1, 40); for (int i = 0; i < n; i++) body += (char)rcx::range(32, 126); }
+        std::string rq = "GET /m HTTP/1.1\r\nHost: h.example\r\n\r\n", rs = std::string("HTTP/1.1 200 OK\r\n") + (rcx::coin() ? "X-A: b\r\n" : "") + "Transfer-Encoding: chunked\r\n\r\n"; size_t he = rs.size(); rs += body;
+        std::vector<size_t> sc; int st = rcx::range(0, 3); if (st == 0) sc.push_back(he); else if (st == 1) { sc.push_back(he); sc.push_back(he + (size_t)rcx::range(1, (int)body.size())); } else if (st == 2) { size_t step = (size_t)rcx::range(1, 5); for (size_t c = step; c < rs.size(); c += step) sc.push_back(c); } else { int n = rcx::range(0, 4); for (int i = 0; i < n; i++) sc.push_back((size_t)rcx::range(1, (int)rs.size() - 1)); std::sort(sc.begin(), sc.end()); }
+        sc.erase(std::unique(sc.begin(), sc.end()), sc.end()); while (!sc.empty() && sc.back() >= rs.size()) sc.pop_back();
+        g_early = {0, 0}; std::string text = case_text(pers, rq, rs, {}, {}, sc); vc::set_current_case(text);
+        auto d = check(pers, rq, rs, {}, {}, sc);
+        if (!rcx::shrinking()) { g_stats.evaluations++; g_stats.cls("malformed_chunked_accounting_cases"); g_stats.nt(vc::fnv1a(text)); g_stats.sample_sparse(text, g_stats.evaluations + 9); }
+        if (!d.first.empty()) { std::string sig = "C06:" + d.first; if (A.is_known(sig)) { if (!rcx::shrinking()) g_stats.attributed[sig]++; return {}; } return rcx::Fail{sig, text, d.second}; }
+        return {};
+    });
+}
+
 static int replay(const std::string &path) {
     std::string f = vc::read_file(path); int pers = 2; std::string rq, rs; std::vector<Exp> exp; std::vector<size_t> qc, sc; size_t p = 0;
     auto U = [](const std::string &s) { return s == "-" ? std::string() : vc::unhex(s); };
@@ -128,6 +148,7 @@ int main(int argc, char **argv) {
     if (!A.replay.empty()) return replay(A.replay);
     g_stats.init(A); g_stats.max_samples = 4; vc::install_crash_capture();
     campaign();
+    if (g_stats.failures.empty()) campaign_malformed();
     g_stats.write();
     return g_stats.failures.empty() ? 0 : 1;
 }
